@@ -855,3 +855,11 @@ SPECS["C10"]["theorems"] += [
 SPECS["C10"]["level_text"] += (' Props/C10G (track glue): the capacities of streaming_footprint are tied to the allocation-time capacity ghost of '
     'GReach (C05): along the streaming pattern the ghost itself is <= S on every live chunk and is the recorded capacity of the current cache '
     '(streaming_footprint_ghost).')
+SPECS["C05"]["theorems"] += [
+    "Woodpile.Props.C05G.op_run_is_wrun",
+    "Woodpile.Props.C05G.enc_prefix_is_wrun",
+    "Woodpile.Props.C05G.enc_run_is_wrun",
+]
+SPECS["C05"]["level_text"] += (' Run level: a whole Op history (whose backfill tokens are its own) and a whole HCOBS encoder run (no side condition) is '
+    'ONE history of this vocabulary on the world whose handle table carries the tokens (op_run_is_wrun, enc_prefix_is_wrun, enc_run_is_wrun), so those '
+    'worlds are Reachable exactly as C05 / C10 / C20 quantify.')
